@@ -51,7 +51,7 @@ def fresh_namespace_verdict(fn):
             return "not-defined"
         sig = inspect.signature(f)
         params = list(sig.parameters.values())
-        if not params or params[0].name != "channel":
+        if not params or params[0].name != "channel" or params[0].kind not in (params[0].POSITIONAL_ONLY, params[0].POSITIONAL_OR_KEYWORD):
             return "wrong-signature"
         kwargs = {p.name: 1 for p in params[1:] if p.default is inspect._empty and p.kind in (p.POSITIONAL_OR_KEYWORD, p.KEYWORD_ONLY)}
         f(ns["channel"], **kwargs)
